@@ -166,6 +166,10 @@ func VerifC05Sequence() {
 			}
 		}
 		verifC05Agrees("C05.after-op", &h, m)
+		if m.find(id) < 0 {
+			// deleted and never-set ids are absent
+			verifAssert("C05.absent-get", h.GetExtension(id) == nil)
+		}
 	}
 	// a following Marshal never panics and may refuse only a ragged legacy value
 	raw, err := h.Marshal()
